@@ -8,8 +8,9 @@ package serializers
 // ---------------------------------------------------------------------------
 
 //@ func SPDX23.Serialize
-//@   props C07, C11, C06
+//@   props C07, C11, C06, C03
 //@   assigns \nothing
+//@   ensures [C03:spdx:nodes:complete] result1 == nil && sbom.validNL(bom.NodeList) ==> (forall i int :: 0 <= i && i < len(bom.NodeList.Nodes) ==> ((bom.NodeList.Nodes[i].Id in fieldset(as(result0, *v2_3.Document).Packages, PackageSPDXIdentifier)) || (bom.NodeList.Nodes[i].Id in fieldset(as(result0, *v2_3.Document).Files, FileSPDXIdentifier))))
 //@   ensures [C06:decl:spdx23] result1 == nil ==> typeis(result0, *v2_3.Document) && as(result0, *v2_3.Document) != nil && as(result0, *v2_3.Document).SPDXVersion == "SPDX-2.3"
 
 // Render is handed what Serialize of the same driver returned (writer protocol)
@@ -57,10 +58,23 @@ package serializers
 // identifier; C01: where each attribute of the node lands in the package
 // ---------------------------------------------------------------------------
 //@ fieldset-of spdx/tools-golang/spdx/v2/v2_3.Package: PackageSPDXIdentifier
+//@ fieldset-of spdx/tools-golang/spdx/v2/v2_3.File: FileSPDXIdentifier
+
+//@ func buildFiles
+//@   props C03
+//@   inline
+//@   requires [C03:pre] bom != nil && bom.NodeList != nil && sbom.validNL(bom.NodeList)
+//@   ensures [C03:spdx:files:complete] result1 == nil ==> (forall i int :: 0 <= i && i < len(bom.NodeList.Nodes) && bom.NodeList.Nodes[i].Type != 0 ==> (bom.NodeList.Nodes[i].Id in fieldset(result0, FileSPDXIdentifier)))
+//@   invariant L0: [C03:inv] forall i int :: 0 <= i && i < _i && bom.NodeList.Nodes[i].Type != 0 ==> (bom.NodeList.Nodes[i].Id in fieldset(files, FileSPDXIdentifier))
 
 //@ func SPDX23.buildPackages
 //@   props C03, C01
 //@   inline
 //@   requires [C03:pre] bom != nil && bom.NodeList != nil && sbom.validNL(bom.NodeList)
 //@   ensures [C03:spdx:packages:complete] result1 == nil ==> (forall i int :: 0 <= i && i < len(bom.NodeList.Nodes) && bom.NodeList.Nodes[i].Type != 1 ==> (bom.NodeList.Nodes[i].Id in fieldset(result0, PackageSPDXIdentifier)))
+//@   ensures [C01:spdx:package:scalars] result1 == nil ==> ((forall u int :: 0 <= u && u < len(bom.NodeList.Nodes) ==> !(bom.NodeList.Nodes[u].Id in fieldsetn(bom.NodeList.Nodes, Id, u))) ==> (forall p *v2_3.Package, i int :: (p in elems(result0)) && 0 <= i && i < len(bom.NodeList.Nodes) && bom.NodeList.Nodes[i].Type != 1 && p.PackageSPDXIdentifier == bom.NodeList.Nodes[i].Id ==> p.PackageName == bom.NodeList.Nodes[i].Name && p.PackageVersion == bom.NodeList.Nodes[i].Version && p.PackageFileName == bom.NodeList.Nodes[i].FileName && p.PackageHomePage == bom.NodeList.Nodes[i].UrlHome && p.PackageLicenseConcluded == bom.NodeList.Nodes[i].LicenseConcluded && p.PackageSummary == bom.NodeList.Nodes[i].Summary && p.PackageDescription == bom.NodeList.Nodes[i].Description && p.PackageComment == bom.NodeList.Nodes[i].Comment && p.PackageDownloadLocation == (bom.NodeList.Nodes[i].UrlDownload == "" ? "NOASSERTION" : bom.NodeList.Nodes[i].UrlDownload)))
+//@   ensures [C01:spdx:package:people] result1 == nil ==> ((forall u int :: 0 <= u && u < len(bom.NodeList.Nodes) ==> !(bom.NodeList.Nodes[u].Id in fieldsetn(bom.NodeList.Nodes, Id, u))) ==> (forall p *v2_3.Package, i int :: (p in elems(result0)) && 0 <= i && i < len(bom.NodeList.Nodes) && bom.NodeList.Nodes[i].Type != 1 && p.PackageSPDXIdentifier == bom.NodeList.Nodes[i].Id ==> ((p.PackageSupplier != nil) <==> (len(bom.NodeList.Nodes[i].Suppliers) > 0)) && ((p.PackageOriginator != nil) <==> (len(bom.NodeList.Nodes[i].Originators) > 0))))
+//@   invariant L0: [C01:inv] !(nil in elems(packages)) && (forall p *v2_3.Package :: (p in elems(packages)) ==> fresh(p) && (p.PackageSPDXIdentifier in fieldsetn(bom.NodeList.Nodes, Id, _i)))
+//@   invariant L0: [C01:inv] (forall u int :: 0 <= u && u < len(bom.NodeList.Nodes) ==> !(bom.NodeList.Nodes[u].Id in fieldsetn(bom.NodeList.Nodes, Id, u))) ==> (forall p *v2_3.Package, i int :: (p in elems(packages)) && 0 <= i && i < len(bom.NodeList.Nodes) && bom.NodeList.Nodes[i].Type != 1 && p.PackageSPDXIdentifier == bom.NodeList.Nodes[i].Id ==> p.PackageName == bom.NodeList.Nodes[i].Name && p.PackageVersion == bom.NodeList.Nodes[i].Version && p.PackageFileName == bom.NodeList.Nodes[i].FileName && p.PackageHomePage == bom.NodeList.Nodes[i].UrlHome && p.PackageLicenseConcluded == bom.NodeList.Nodes[i].LicenseConcluded && p.PackageSummary == bom.NodeList.Nodes[i].Summary && p.PackageDescription == bom.NodeList.Nodes[i].Description && p.PackageComment == bom.NodeList.Nodes[i].Comment && p.PackageDownloadLocation == (bom.NodeList.Nodes[i].UrlDownload == "" ? "NOASSERTION" : bom.NodeList.Nodes[i].UrlDownload))
+//@   invariant L0: [C01:inv] (forall u int :: 0 <= u && u < len(bom.NodeList.Nodes) ==> !(bom.NodeList.Nodes[u].Id in fieldsetn(bom.NodeList.Nodes, Id, u))) ==> (forall p *v2_3.Package, i int :: (p in elems(packages)) && 0 <= i && i < len(bom.NodeList.Nodes) && bom.NodeList.Nodes[i].Type != 1 && p.PackageSPDXIdentifier == bom.NodeList.Nodes[i].Id ==> ((p.PackageSupplier != nil) <==> (len(bom.NodeList.Nodes[i].Suppliers) > 0)) && ((p.PackageOriginator != nil) <==> (len(bom.NodeList.Nodes[i].Originators) > 0)))
 //@   invariant L0: [C03:inv] forall i int :: 0 <= i && i < _i && bom.NodeList.Nodes[i].Type != 1 ==> (bom.NodeList.Nodes[i].Id in fieldset(packages, PackageSPDXIdentifier))
